@@ -10,7 +10,7 @@ import shutil
 from . import scn as S
 from . import tlc
 
-TRACE_KINDS = ("SB", "SE", "DE", "CB", "END", "STOP", "FAULT", "LOG", "EG")
+TRACE_KINDS = ("SB", "SE", "DE", "CB", "END", "STOP", "FAULT", "LOG", "EG", "SETUP", "DB")
 
 
 def project(trace):
@@ -22,12 +22,17 @@ def project(trace):
         e = dict(e)
         e.pop("msg", None)
         e.pop("nstops", None)
+        if e["k"] == "DB":
+            e.pop("req", None)  # (the attribute lists of a get_data request are compared by the C11 check only)
         out.append(e)
     return out
 
 
 def batch_item(ident, scn, trace):
-    return {"id": ident, "scn": S.tla_scn(scn), "ev": project(trace)}
+    sc = S.tla_scn(scn)
+    # the request-protocol clauses (PR_*) apply when the recorder of every transport logged setup_done
+    sc["proto"] = any(e["k"] == "SETUP" for e in trace)
+    return {"id": ident, "scn": sc, "ev": project(trace)}
 
 
 _V = re.compile(r'<<"V", (\d+), (\d+), "([A-Za-z0-9_]+)">>')
